@@ -31,6 +31,8 @@ CONSTANTS
   WithSwitch = %(switch)s
   WithGet = %(get)s
   WithHandle = %(handle)s
+  WithFlushOne = %(flushone)s
+  WithDrop = %(drop)s
   Dev = {%(dev)s}
   OutFile = "%(out)s"
   BatchFilter <- %(bfilter)s
@@ -44,11 +46,11 @@ IMPL_INVS = "INVARIANTS TypeOK RefOK IndexAgree ExistOK UniqueOK ValidOK SyncDur
 
 
 def impl_cfg(slots=2, kvals=2, avals=2, maxbatch=2, maxops=3, cfgs="AllCfgs", thr=2, tmo=1, flusher=False,
-             switch=False, get=True, handle=False, dev=(), out="", bfilter="AnyBatch", check=True):
+             switch=False, get=True, handle=False, dev=(), out="", bfilter="AnyBatch", check=True, flushone=False, drop=False):
     return GEN_CFG % dict(
         slots=", ".join(str(i) for i in range(1, slots + 1)), kvals=", ".join(str(i) for i in range(kvals)),
         avals=", ".join(str(i) for i in range(avals)), maxbatch=maxbatch, maxops=maxops, cfgs=cfgs, thr=thr, tmo=tmo,
-        flusher="TRUE" if flusher else "FALSE", switch="TRUE" if switch else "FALSE", get="TRUE" if get else "FALSE", handle="TRUE" if handle else "FALSE",
+        flusher="TRUE" if flusher else "FALSE", switch="TRUE" if switch else "FALSE", get="TRUE" if get else "FALSE", handle="TRUE" if handle else "FALSE", flushone="TRUE" if flushone else "FALSE", drop="TRUE" if drop else "FALSE",
         dev=", ".join('"%s"' % d for d in dev), out=out, bfilter=bfilter,
         emit="ACTION_CONSTRAINT Emit" if out else "", invs=IMPL_INVS if check else "")
 
@@ -159,7 +161,7 @@ def conv_obj(uni, o, pal, extra, n):
         else:
             v["W"] = uni["inv"]["W"] + 1        # a non-canonical spelling of the invalid value
     else:
-        v["V"] = [zero["V"], zero["V"] + 1, zero["V"] + 2][n % 3]
+        v["V"] = [zero["V"], zero["V"] + 1, zero["V"] + 2, zero["V"] + 3][n % 4]     # 3: the driver's Transform is not idempotent on it (3 -> 2 -> 1)
         if n % 5 == 3:
             v["W"] = uni["tr"]["W"][0]          # "q": Transform makes it "R", the schema "r"
     v["pl"] = n % uni["payloads"]
@@ -203,6 +205,9 @@ def convert(uni, hist, idx, obs_around_reopen=True, pal=None, storage=None, extr
                 out.append({"op": "obs"})
         elif k == "flush":
             out.append({"op": "flush", "what": op["what"]})
+        elif k == "flushone":
+            # the object handed to Flush only identifies what to flush: three spellings of the argument
+            out.append({"op": "flushone", "slot": op["u"], "commit": op["commit"], "what": ["same", "dirty", "blank"][n % 3]})
         elif k == "eval2":
             q = op["q"][0]
             P = PALETTES[pal]
@@ -219,6 +224,8 @@ def convert(uni, hist, idx, obs_around_reopen=True, pal=None, storage=None, extr
         elif k == "switch":
             out.append({"op": "switch", "cfg": {"cache": op["cache"], "async": op["async"], "thr": thr, "tmo_ms": tmo_ms}})
             vclock = True
+        elif k == "drop":
+            out.append({"op": "drop", "cfg": {"cache": op["cache"], "async": op["async"]}})
         else:
             raise ValueError("unknown model op " + k)
     t = {"id": "mc%d" % idx, "cfg": make_cfg(head["cache"], head["async"], storage, thr=thr, tmo_ms=tmo_ms), "ops": out}
@@ -268,7 +275,7 @@ class RandGen:
             base = PALETTES[self.pal]["K"][0]
             return min(n - 1, base + rng.randrange(7)) if rng.random() < 0.85 else rng.randrange(n)
         if f == "V":
-            return rng.choice([1, 1, 2, 3, 4, 5, 6, 7]) if rng.random() < 0.25 else rng.choice([1, 2, 3])
+            return rng.choice([1, 1, 2, 3, 4, 5, 6, 7]) if rng.random() < 0.25 else rng.choice([1, 2, 3, 4])
         w = min(n, 5)
         lo = min(n - w, PALETTES[self.pal].get(f, [0])[0])
         return lo + rng.randrange(w) if rng.random() < 0.85 else rng.randrange(n)
@@ -278,7 +285,7 @@ class RandGen:
         o = {"K": self.val("K"), "S": self.val("S")}
         for f in self.flds:
             o[f] = self.val(f)
-        o["V"] = rng.choice([1, 2, 3]) if valid_only else self.val("V")
+        o["V"] = rng.choice([1, 2, 3, 4]) if valid_only else self.val("V")
         if rng.random() < 0.3 and not valid_only:
             o["W"] = rng.choice([uni["inv"]["W"], uni["inv"]["W"] + 1, uni["tr"]["W"][0], case_code(uni, "W", rng.randrange(6), rng.randrange(3))])
         elif rng.random() < 0.3:
@@ -324,6 +331,10 @@ class RandGen:
         for j in range(n):
             s = self.slot()
             if rng.random() < 0.1 and b:
+                # the very same object twice: its Transform legitimately runs twice, so keep it off the value on
+                # which the driver's Transform is not idempotent (the oracle applies Transform once per object)
+                if b[0]["o"].get("V") == self.uni["zero"]["V"] + 3:
+                    b[0]["o"]["V"] = self.uni["zero"]["V"] + 1
                 b.append({"slot": b[0]["slot"], "same_as": 1})
                 continue
             if rng.random() < 0.04 and b:
@@ -367,6 +378,33 @@ def random_test(uni, rng, idx, nops=40, nslots=8, p_reopen=0.06, p_batch=0.12, p
     return {"id": "rnd%d" % idx, "cfg": make_cfg(c[0], c[1], rng.randrange(len(STORAGE))), "ops": ops, "fields": ["K", "S"] + g.flds}
 
 
+def with_aux(t, rng, p=0.25, nslots=4, nkeys=5):
+    """Interleave operations on a second collection of the same database (harness/aux.go) into a sequential test.
+    Returns the test unchanged when it uses features the second collection is kept out of (virtual clock, settings
+    switches, engines that materialise directories, abandoning a handle with asynchronous writes)."""
+    if t.get("vclock") or t.get("threads") or t.get("adopt") or t.get("crash_all"):
+        return t
+    for o in t["ops"]:
+        if o["op"] in ("switch", "tick", "damage", "corrupt", "args") or o.get("crash") or o.get("fault"):
+            return t
+        if o["op"] == "reopen" and t["cfg"]["async"] and not o.get("close"):
+            return t
+    ops = []
+    def some():
+        x = rng.random()
+        if x < 0.6:
+            return {"op": "xput", "slot": rng.randrange(1, nslots + 1), "k": rng.randrange(nkeys), "a": rng.randrange(3)}
+        if x < 0.85:
+            return {"op": "xdel", "slot": rng.randrange(1, nslots + 1)}
+        return {"op": "xflush", "what": rng.choice(["all", "allcommit"])}
+    ops.append(some())
+    for o in t["ops"]:
+        ops.append(o)
+        while rng.random() < p:
+            ops.append(some())
+    return dict(t, ops=ops, aux=True)
+
+
 def order_test(uni, rng, idx, nobj=8, nq=8, cfgs=None):
     """C13: a collection with ties, then searches ending on an indexed field collected with Reverse / Limit / One."""
     g = RandGen(uni, rng, nslots=nobj)
@@ -405,7 +443,18 @@ def snapshot_test(uni, rng, idx, nobj=6, cfgs=None):
         ops.append({"op": "eval", "h": h, "q": q})
         ops.append({"op": "eval", "h": h + 1, "q": q})
         ops.append({"op": "collect", "h": h, "lim": -1, "what": "collect"})
-        for _ in range(rng.randrange(1, 5)):
+        if rng.random() < 0.3:
+            # empty the collection (one of three ways), refill it: identifiers of the old matches must not denote the new objects
+            z = rng.random()
+            if z < 0.4:
+                ops.append({"op": "delall"})
+            elif z < 0.7:
+                ops += [{"op": "del", "slot": s} for s in rng.sample(range(1, g.nslots + 1), g.nslots)]
+            else:
+                ops.append({"op": "delsearch", "q": [{"f": "K", "op": ">=", "p": 0}]})
+            for s in rng.sample(range(1, g.nslots + 1), rng.randrange(1, g.nslots + 1)):
+                ops.append({"op": "put", "slot": s, "o": g.obj(valid_only=True)})
+        for _ in range(rng.randrange(0, 5)):
             y = rng.random()
             if y < 0.5:
                 ops.append({"op": "put", "slot": g.slot(), "o": g.obj(valid_only=True)})
@@ -640,9 +689,11 @@ def async_test(uni, rng, idx, nops=14, nslots=5):
             ops.append({"op": "del", "slot": g.slot()})
         elif x < 0.82:
             ops.append({"op": "tick"})
-        elif x < 0.88:
+        elif x < 0.86:
             ops.append({"op": "flush", "what": rng.choice(["all", "allcommit", "commit"])})
-        elif x < 0.94:
+        elif x < 0.91:
+            ops.append({"op": "flushone", "slot": g.slot(), "commit": rng.random() < 0.5, "what": rng.choice(["same", "dirty", "blank"])})
+        elif x < 0.95:
             ops.append({"op": "obs", "light": True})
         else:
             ops.append({"op": "obs"})
